@@ -98,6 +98,11 @@ func (m mapRef) String() string {
 }
 
 func (c *Ctx) classifyMap(gf *graphFields, m ssa.Value) mapRef {
+	if prm, ok := m.(*ssa.Parameter); ok {
+		if sub, ok := core.PathEnv[prm]; ok && sub != nil {
+			return c.classifyMap(gf, sub)
+		}
+	}
 	role := func(field string) string {
 		switch field {
 		case gf.out:
@@ -153,19 +158,82 @@ type mapMut struct {
 	keyV  ssa.Value
 	val   ssa.Value
 	block *ssa.BasicBlock
+	// when the outer key of ref ranges over a map: that map's classification (computed where the loop lives)
+	rangeSrc *mapRef
+	valPath  string
 }
 
 func (c *Ctx) mapMuts(gf *graphFields, f *ssa.Function) []mapMut {
+	return c.mapMutsDepth(gf, f, 0)
+}
+
+func (c *Ctx) mapMutsDepth(gf *graphFields, f *ssa.Function, depth int) []mapMut {
 	var out []mapMut
+	rangeSrcOf := func(ref mapRef) *mapRef {
+		if !strings.HasPrefix(ref.key, "rangekey(") {
+			return nil
+		}
+		var res *mapRef
+		core.Instrs(f, func(in ssa.Instruction) {
+			if n, ok := in.(*ssa.Next); ok {
+				if rg, ok := n.Iter.(*ssa.Range); ok {
+					kp := "rangekey(" + core.Path(rg.X) + ")@" + fmt.Sprintf("%p", n)
+					if kp == ref.key {
+						r := c.classifyMap(gf, rg.X)
+						res = &r
+					}
+				}
+			}
+		})
+		return res
+	}
 	core.Instrs(f, func(in ssa.Instruction) {
 		switch x := in.(type) {
 		case *ssa.MapUpdate:
-			out = append(out, mapMut{in: in, ref: c.classifyMap(gf, x.Map), key: core.Path(x.Key), keyV: x.Key, val: x.Value, block: in.Block()})
+			ref := c.classifyMap(gf, x.Map)
+			out = append(out, mapMut{in: in, ref: ref, key: core.Path(x.Key), keyV: x.Key, val: x.Value, block: in.Block(), rangeSrc: rangeSrcOf(ref), valPath: core.Path(x.Value)})
 		case ssa.CallInstruction:
 			if core.CalleeName(x.Common()) == "builtin.delete" {
 				a := x.Common().Args
-				out = append(out, mapMut{in: in, del: true, ref: c.classifyMap(gf, a[0]), key: core.Path(a[1]), keyV: a[1], block: in.Block()})
+				ref := c.classifyMap(gf, a[0])
+				out = append(out, mapMut{in: in, del: true, ref: ref, key: core.Path(a[1]), keyV: a[1], block: in.Block(), rangeSrc: rangeSrcOf(ref)})
+				return
 			}
+			// virtual inlining (one level): an in-target helper that receives adjacency maps / the vertex table
+			cal := x.Common().StaticCallee()
+			if depth > 0 || cal == nil || !c.P.InTarget(cal) || cal.Blocks == nil || cal == f {
+				return
+			}
+			if cal.Signature.Recv() != nil && core.NamedOf(cal.Signature.Recv().Type()) == "graph.Graph" {
+				return // methods of Graph are analysed in their own right
+			}
+			passes := false
+			for _, a := range x.Common().Args {
+				if r := c.classifyMap(gf, a); r.level != "other" {
+					passes = true
+				}
+			}
+			if !passes {
+				return
+			}
+			saved := core.PathEnv
+			env := map[*ssa.Parameter]ssa.Value{}
+			for k, v := range saved {
+				env[k] = v
+			}
+			for i, prm := range cal.Params {
+				if i < len(x.Common().Args) {
+					env[prm] = x.Common().Args[i]
+				}
+			}
+			core.PathEnv = env
+			for _, m := range c.mapMutsDepth(gf, cal, depth+1) {
+				// the helper's mutations happen at the call site as far as the caller's control flow is concerned
+				m.in = in
+				m.block = in.Block()
+				out = append(out, m)
+			}
+			core.PathEnv = saved
 		}
 	})
 	return out
@@ -252,7 +320,7 @@ func runMirror(c *Ctx) {
 						continue
 					}
 					if o.ref.field == other(m.ref.field) && o.ref.key == m.key && o.key == m.ref.key &&
-						core.Path(o.val) == core.Path(m.val) && core.Path(o.ref.base) == core.Path(m.ref.base) &&
+						o.valPath == m.valPath && core.Path(o.ref.base) == core.Path(m.ref.base) &&
 						(o.block == m.block || (o.block.Dominates(m.block) && sameGuards(o.block, m.block)) || (m.block.Dominates(o.block) && sameGuards(o.block, m.block))) {
 						found = true
 					}
@@ -277,8 +345,7 @@ func runMirror(c *Ctx) {
 				if o.ref.level == "outer" && o.ref.field == other(m.ref.field) && o.key == m.key &&
 					strings.HasPrefix(m.ref.key, "rangekey(") && postDominatesEntry(f, o.block) {
 					// a (m.ref.key) must range over X'[b]
-					if n := rangeSourceOfKey(m.ref, muts, f); n != nil {
-						src := c.classifyMap(gf, n)
+					if src := m.rangeSrc; src != nil {
 						if src.level == "inner" && src.field == other(m.ref.field) && src.key == m.key {
 							found, how = true, "neighbour loop over "+src.String()+" followed by delete("+o.ref.String()+", key)"
 						}
@@ -430,6 +497,13 @@ func runMirror(c *Ctx) {
 									}
 								}
 							}
+						}
+					}
+					// one-level helper form: g2.X[k] = copier(set) with copier returning a fresh map filled from its parameter
+					if hc, ok := m.val.(*ssa.Call); ok && isMapCopier(p, hc.Common().StaticCallee()) && len(hc.Common().Args) == 1 {
+						src := c.classifyMap(gf, hc.Common().Args[0])
+						if src.level == "inner" && src.field == m.ref.field && core.Root(src.base) == recv && src.key == m.key {
+							freshInner, srcOK = true, true
 						}
 					}
 					c.R.Add("COPY", "Copy|outer-"+m.ref.field, name, p.InstrPos(m.in), freshGraph && freshInner && srcOK,
@@ -602,3 +676,50 @@ func loopHeaderOrSelf(b *ssa.BasicBlock) *ssa.BasicBlock {
 }
 
 var _ = token.ADD
+
+// isMapCopier: h(m map[K]V) map[K]V returns, on every path, one freshly made map into which every entry of
+// its parameter is stored unchanged (a range over the parameter with m2[k] = v).
+func isMapCopier(p *core.Prog, h *ssa.Function) bool {
+	if h == nil || !p.InTarget(h) || len(h.Params) != 1 || h.Signature.Results().Len() != 1 {
+		return false
+	}
+	var mk *ssa.MakeMap
+	for _, r := range core.Returns(h) {
+		m, ok := r.Results[0].(*ssa.MakeMap)
+		if !ok || (mk != nil && mk != m) {
+			return false
+		}
+		mk = m
+	}
+	if mk == nil {
+		return false
+	}
+	filled := false
+	bad := false
+	core.Instrs(h, func(in ssa.Instruction) {
+		switch x := in.(type) {
+		case *ssa.MapUpdate:
+			if x.Map != ssa.Value(mk) {
+				bad = true
+				return
+			}
+			n, ok := extractNext(x.Key)
+			if !ok || !sameNext(x.Value, n, 2) {
+				bad = true
+				return
+			}
+			if rg, ok := n.Iter.(*ssa.Range); ok && rg.X == ssa.Value(h.Params[0]) && len(core.Lits(core.Guards(x.Block()))) <= 1 {
+				filled = true
+			} else {
+				bad = true
+			}
+		case *ssa.Store:
+			bad = true
+		case ssa.CallInstruction:
+			if core.CalleeName(x.Common()) != "builtin.len" {
+				bad = true
+			}
+		}
+	})
+	return filled && !bad
+}
